@@ -177,6 +177,23 @@ def case_hook(rng):
     return "hook %d %s" % (k, " ".join(pre + ops + tail + epilogue(k)))
 
 
+def case_race(rng):
+    """a delete (DeleteExpiredSegments) races the reopening acquire of the same segment: the deleter
+    stores the flag, sees refCount 0 and blocks on s.mu while the acquirer is inside initialize – the
+    interleaving performDelete's re-check under the mutex exists for.  (With the legacy callers the
+    deleter's trailing DecRef also takes the new reference away: finding class F14a.)"""
+    k = rng.choice([2, 3, 4])
+    pre, _ = gen_ops(rng, k, rng.randrange(0, 4), allow_close=False, weights={"t": 0, "o": 0, "x": 0})
+    i = rng.randrange(k)
+    ops = pre + ["R", "g%d" % i, "i"]
+    if rng.random() < 0.25:
+        ops.append("f%d%d" % (i, rng.choice([1, 2])))
+    trig = rng.choice(["a1%d" % i, "a1%d" % i, "s1%d%d" % (rng.randrange(0, i + 1), rng.randrange(i, k)), "k"])
+    ops += ["D%d" % i, trig, "f%d0" % i, "u1%d" % i]
+    ops += rng.choice([["G", "i"], ["n", "m"], ["a2%d" % i], []]) + ["u1%d" % i]
+    return "race %d %s" % (k, " ".join(ops + epilogue(k)))
+
+
 def case_stress(rng, iters):
     k = rng.choice([3, 4])
     n = rng.choice([4, 8])
@@ -221,13 +238,18 @@ def oracle_seq(line, g):
             return "malformed token %r" % tok
         res, cur = m.group(1), parse_dump(m.group(2))
         where = "op #%d %s -> %s" % (n, o, res)
+        raced = "+D:" in res
+        if raced:
+            res, dres = res.split("+D:")
+            if dres != "done":
+                return where + ": the racing delete did not finish"
         if "+h:" in res:
             res, hres = res.split("+h:")
             if armed and hres == "ok":
                 held[armed[0]][armed[1]] += 1
             if hres == "blocked":
                 return where + ": the hooked incRef blocked (generator must avoid this)"
-        if o[0] != "h":
+        if o[0] not in "hD":
             armed = None
         c = int(o[1]) if len(o) > 1 and o[0] in "arusqph" else None
         if o[0] == "a":
@@ -238,7 +260,10 @@ def oracle_seq(line, g):
                     return where + ": incRef succeeded but the segment is not open with its directory"
             if not prev[i]["dir"] and res != "closed" and not closed:
                 return where + ": incRef on a removed segment must fail with the closed error"
-            if res != "ok" and [x for x in cur[i].items() if x[0] != "tbl"] != [x for x in prev[i].items() if x[0] != "tbl"]:
+            if res != "ok" and raced and cur[i]["rc"] != prev[i]["rc"]:
+                return where + ": a failed incRef changed the reference count"
+            if res != "ok" and not raced and \
+                    [x for x in cur[i].items() if x[0] != "tbl"] != [x for x in prev[i].items() if x[0] != "tbl"]:
                 return where + ": a failed incRef changed the segment state %s -> %s" % (prev[i], cur[i])
         elif o[0] == "r":
             if res == "ok":
@@ -250,7 +275,9 @@ def oracle_seq(line, g):
             if res.startswith("ok:"):
                 for ch in res[3:]:
                     held[c][int(ch)] += 1
-            elif cur != prev and [[y for y in x.items() if y[0] not in ("idx", "tbl")] for x in cur] != \
+            elif raced and [x["rc"] for x in cur] != [x["rc"] for x in prev]:
+                return where + ": a failed SelectSegments changed reference counts: %s -> %s" % (prev, cur)
+            elif not raced and [[y for y in x.items() if y[0] not in ("idx", "tbl")] for x in cur] != \
                     [[y for y in x.items() if y[0] not in ("idx", "tbl")] for x in prev]:
                 return where + ": a failed SelectSegments changed reference counts: %s -> %s" % (prev, cur)
         elif o[0] == "p":
@@ -327,7 +354,7 @@ class C14(vlib.Spec):
     theorems = ["Banyan.C14." + t for t in [
         "inv_reachable", "refcount_eq_holders", "shape_reachable", "mutex", "close_steps_guarded",
         "no_use_after_close", "resource_access_safe",
-        "dir_never_returns", "delete_at_last_release", "last_release_commits", "last_release_deletes",
+        "dir_never_returns", "delete_at_last_release", "delete_at_last_release_partial", "last_release_commits", "last_release_deletes",
         "no_resurrection", "acquire_after_delete_fails", "incRef_after_delete",
         "incRef_fail_no_count", "decRef_always_releases", "all_released_rc_zero", "unreferenced_reclaimable",
         "selectLoop_no_leak", "segmentsLoop_no_leak",
@@ -336,7 +363,7 @@ class C14(vlib.Spec):
         "Banyan.Tie.C14." + t for t in ["shape_tie", "decref_tie", "callers_tie"]]
     go_driver = "c14"
     lean_driver = "C14"
-    counts = {"quick": 2400, "thorough": 60000}
+    counts = {"quick": int(os.environ.get("VERIF_C14_N", "2000")), "thorough": int(os.environ.get("VERIF_C14_N", "30000"))}
     trusted_base = [
         "Lean 4.33.0 kernel",
         "reading of segment.go into the atomic-step programs of Banyan.C14.tstep (one pc = one atomic action)",
@@ -361,10 +388,10 @@ class C14(vlib.Spec):
 
     def cases(self, rng, n):
         out = []
-        stress_iters = 300 if n <= 5000 else 1500
-        n_stress = 6 if n <= 5000 else 40
-        mix = [(case_life, 0.42), (case_fail, 0.2), (case_shut, 0.08), (case_steal, 0.1), (case_leak, 0.08),
-               (case_hook, 0.12)]
+        stress_iters = 800 if n <= 5000 else 8000
+        n_stress = 4 if n <= 5000 else 40
+        mix = [(case_life, 0.38), (case_fail, 0.18), (case_shut, 0.08), (case_steal, 0.1), (case_leak, 0.08),
+               (case_hook, 0.1), (case_race, 0.08)]
         for fn, share in mix:
             for _ in range(int(n * share)):
                 out.append(fn(rng))
@@ -379,7 +406,19 @@ class C14(vlib.Spec):
         if line.startswith("stress "):
             return None if g == "ok" else ("violation", "concurrent stress: " + g[:300])
         v = oracle_seq(line, g)
-        return ("violation", v) if v else None
+        if not v:
+            return None
+        # the two caller defects, keyed by call site + input class (only honoured when KNOWN_FINDINGS.txt
+        # lists them; the proposed disposition is the fix, see checks/C14.design.md)
+        m = re.match(r"op #\d+ (\S+) -> (.*?): ", v)
+        if m:
+            o, res = m.group(1), m.group(2)
+            if "taken away from its holder" in v and (o[0] in "qR" or (o[0] in "txe" and "+h:ok" in res) or
+                                                      (o[0] in "ask" and "+D:done" in res)):
+                return ("known", "F14a", v)
+            if "leaked reference" in v and o == "k" and res in ("ierr", "closed"):
+                return ("known", "F14b", v)
+        return ("violation", v)
 
     def compare(self, line, g, l):
         if line.startswith("stress "):
@@ -411,6 +450,10 @@ class C14(vlib.Spec):
                     changed = True
                 i -= 1
         return " ".join(head + ops + tail)
+
+    def directed(self, rng, seeds, n):
+        """search for a failing input after a proof/tie/correspondence obligation broke"""
+        return self.cases(rng, 1500)
 
     def extra(self, R, tier, rng):
         """informational: does the tree under test still show the two caller defects exactly as the
